@@ -34,6 +34,7 @@ type poolEntry struct {
 }
 
 type opRecord struct {
+	ns   map[string]string // this operation's prefix bindings (nil: the default ones)
 	desc string
 	req  world.ExecReq
 	vars map[string]int // node-set variable -> held index
@@ -185,6 +186,17 @@ func (s *session) exec(rec opRecord, repeatOf int) {
 			return
 		}
 		b.Vars[name] = v
+	}
+	if rec.ns != nil {
+		b.NS = rec.ns
+	}
+	if rec.own {
+		for k := range s.ownNS {
+			delete(s.ownNS, k)
+		}
+		for k, v := range b.NS {
+			s.ownNS[k] = v
+		}
 	}
 	rec.req.Bindings = &b
 	if rec.req.Pool == nil {
@@ -471,8 +483,24 @@ func Run(t *simkit.Tape, o *simkit.Outcome, full bool) {
 			ctx := s.randomNode()
 			vars := s.drawVars()
 			own := t.Bool(1, 3)
-			desc := fmt.Sprintf("Exec(%s, e%d%s%s)", s.w.PathOf(ctx), pi, map[bool]string{true: ", caller-owned maps", false: ""}[own], prefixIf(", ", varDesc(s, vars)))
-			s.exec(opRecord{desc: desc, req: world.ExecReq{Expr: s.pool[pi].Str, Ctx: ctx}, vars: vars, own: own}, -1)
+			// the same compiled expression under different prefix bindings
+			var ns map[string]string
+			nsDesc := ""
+			switch t.Pick(5, 1, 1, 1, 1) {
+			case 1:
+				ns, nsDesc = map[string]string{"p": "urn:b", "q": "urn:a"}, ", p<->q swapped"
+			case 2:
+				ns, nsDesc = map[string]string{"p": "urn:c:d", "q": "urn:b"}, ", p=urn:c:d"
+			case 3:
+				ns, nsDesc = map[string]string{"p": "urn:a"}, ", q unbound"
+			case 4:
+				ns, nsDesc = map[string]string{"p": "http://x.example/y?z=1&w=2", "q": "urn:a", "xs": "urn:b"}, ", p=http://x.example/…"
+			}
+			if ns != nil {
+				s.o.Probe("query-with-rebound-prefixes")
+			}
+			desc := fmt.Sprintf("Exec(%s, e%d%s%s%s)", s.w.PathOf(ctx), pi, map[bool]string{true: ", caller-owned maps", false: ""}[own], nsDesc, prefixIf(", ", varDesc(s, vars)))
+			s.exec(opRecord{desc: desc, req: world.ExecReq{Expr: s.pool[pi].Str, Ctx: ctx}, vars: vars, own: own, ns: ns}, -1)
 		case 2: // query whose result slice the caller keeps
 			var cands []int
 			for i, p := range s.pool {
